@@ -24,7 +24,7 @@ RULE = ('Hypothesis RuleBasedStateMachine over a fixed universe of 9 tasks (Pick
         'is_cached(task), cached_tasks(type subset), new Lab on the same storage. Oracle: a dictionary model task -> stored value '
         'stepped in lock-step (reference evaluator decides what a run executes/loads/returns and which entries it adds or '
         'replaces); after every rule is_cached of all 9 tasks, cached_tasks per type and the set of storage keys must equal the '
-        'model; cache=None types and storage=None never persist anything. Non-trivial = a sequence containing run -> uncache (proper '
+        'model, and the result_meta of every load / listed task must be the one recorded by the execution that stored the entry; cache=None types and storage=None never persist anything. Non-trivial = a sequence containing run -> uncache (proper '
         'subset) -> run, or run -> run(bust_cache), with at least one dependency edge involved. Distinct = hash of (storage, op list).')
 ASSUMPTIONS = ['fork steps use whatever completion order the OS produces; the controlled backend draws it from the step\'s schedule']
 
@@ -125,9 +125,17 @@ class Session:
         want_exec = sorted(f'u{i}' for i in ex.executed)
         if executed != want_exec:
             out.append(core.Finding('C08:run-executed-other-than-the-model' + (':bust_cache' if bust else ''), f'executed {executed}, model {want_exec}'))
+        requested = set(subset)
+        for i in ex.loaded:
+            # the requested objects are the ones labtech marks in this call
+            if i in requested and ex.status.get(i) == 'loaded' and self.meta.get(i) is not None and self.built.shared[i].result_meta != self.meta[i]:
+                out.append(core.Finding('C08:loaded-result_meta-is-not-the-stored-one',
+                                        f'u{i}: {self.built.shared[i].result_meta} vs recorded {self.meta[i]}'))
         for i in ex.executed:
             if ex.status[i] == 'ok' and i in ex.new_model:
-                self.meta[i] = self.built.shared[i].result_meta
+                # the execution may have marked a nested (fresh) instance rather than the shared one: the newest mark is this run's
+                marks = [t.result_meta for t in self.built.instances[i] if t.result_meta is not None and t.result_meta.start is not None]
+                self.meta[i] = max(marks, key=lambda m: m.start) if marks else None
         self.model = ex.new_model
         return out
 
@@ -156,8 +164,11 @@ class Session:
             out.append(core.Finding('C08:cached_tasks-disagrees-with-the-model', f'{got_keys} vs {want}'))
         else:
             for t in got:
-                if not (t == self.built.shared[int(t.name[1:])]):
+                i = int(t.name[1:])
+                if not (t == self.built.shared[i]):
                     out.append(core.Finding('C08:cached_tasks-returned-unequal-task', repr(t)[:200]))
+                if self.meta.get(i) is not None and t.result_meta != self.meta[i]:
+                    out.append(core.Finding('C08:cached_tasks-result_meta-is-not-the-stored-one', f'u{i}: {t.result_meta} vs recorded {self.meta[i]}'))
         return out
 
     def invariant(self) -> list:
